@@ -77,7 +77,7 @@ contract("monkeytype.db.sqlite:SQLiteStore.filter", props=["C09", "C14"], theori
 contract("monkeytype.db.sqlite:create_call_trace_table", props=["C09"], theories=TH, pure=False, effects="sql", hide=["post:idempotent-ddl"],
          params={"conn": "Conn", "table": "strp"}, result="none",
          ensures={"post:one-transaction": "len(effects()) == len(old(effects())) + 4 and nth(effects(), len(old(effects()))) is tup('begin', conn) and last_effect_() is tup('commit', conn)",
-                  "post:idempotent-ddl": "sql_is_ddl(unboxs(nth(nth(effects(), len(old(effects())) + 1), 2))) and sql_is_ddl(unboxs(nth(nth(effects(), len(old(effects())) + 2), 2)))"},
+                  "post:idempotent-ddl": "n_executed() == 2 and sql_is_ddl(executed(0)) and sql_is_ddl(executed(1))"},
          raises={"sqlite3.Error": None})
 
 contract("monkeytype.db.sqlite:SQLiteStore.make_store", props=["C09"], theories=TH, pure=False, effects="sql",
